@@ -530,6 +530,8 @@ def repeated_rule_shape(cname):
 
     sh = Shape(name, build, obligations)
     sh.grid = False
+    from symx.harness import crash_obligations
+    sh.on_exception = crash_obligations(PROP, name, "symx.harness:replay_build_crash", "a well-formed problem cannot be built and initialised")
     sh.cname = cname
     return sh
 
@@ -609,6 +611,8 @@ def pair_interference_shape(c1, c2):
 
     sh = Shape(name, build, obligations)
     sh.grid = False
+    from symx.harness import crash_obligations
+    sh.on_exception = crash_obligations(PROP, name, "symx.harness:replay_build_crash", "a well-formed problem cannot be built and initialised")
     sh.pair = (c1, c2)
     sh.one = one
     return sh
